@@ -188,6 +188,11 @@ pub struct EncryptedKeyStorageManager {
     argon2_config: Argon2Config,
     /// In-memory cache of decrypted keys
     key_cache: Arc<RwLock<HashMap<String, SecureMemory>>>,
+    /// Keyed fingerprint of the password that filled the cache; the cache answers
+    /// only a caller presenting that same password
+    cache_password_tag: Arc<RwLock<Option<[u8; 32]>>>,
+    /// Per-process key of the fingerprint above
+    cache_tag_key: [u8; 32],
     // Removed insecure password cache that bypassed password validation
     /// Background key derivation tasks
     _background_tasks: Arc<AsyncRwLock<HashMap<String, tokio::task::JoinHandle<Result<()>>>>>,
@@ -348,6 +353,12 @@ impl EncryptedKeyStorageManager {
             storage_path,
             argon2_config,
             key_cache: Arc::new(RwLock::new(HashMap::new())),
+            cache_password_tag: Arc::new(RwLock::new(None)),
+            cache_tag_key: {
+                let mut key = [0u8; 32];
+                RngCore::fill_bytes(&mut thread_rng(), &mut key);
+                key
+            },
             _background_tasks: Arc::new(AsyncRwLock::new(HashMap::new())),
             stats: Arc::new(Mutex::new(StorageStats::default())),
             _security_level: security_level,
@@ -451,6 +462,7 @@ impl EncryptedKeyStorageManager {
                 SecureMemory::from_slice(master_seed.seed_material())?,
             );
         }
+        self.remember_cache_password(password)?;
 
         // Update statistics
         {
@@ -475,8 +487,10 @@ impl EncryptedKeyStorageManager {
     ) -> Result<MasterSeed> {
         let start_time = Instant::now();
 
-        // Check cache first
-        {
+        // Check cache first - but only for a caller presenting the password that
+        // unlocked the store when the cache was filled. Any other password takes
+        // the slow path and is checked against the file.
+        if self.cache_password_matches(password)? {
             let cache = self.key_cache.read().map_err(|_| {
                 P2PError::Storage(StorageError::LockPoisoned(
                     "read lock failed".to_string().into(),
@@ -513,6 +527,7 @@ impl EncryptedKeyStorageManager {
             })?;
             cache.insert(seed_id.to_string(), SecureMemory::from_slice(seed_bytes)?);
         }
+        self.remember_cache_password(password)?;
 
         // Update statistics
         {
@@ -565,6 +580,9 @@ impl EncryptedKeyStorageManager {
         // Clear in-memory key cache so subsequent reads require correct password
         if let Ok(mut cache) = self.key_cache.write() {
             cache.clear();
+        }
+        if let Ok(mut tag) = self.cache_password_tag.write() {
+            *tag = None;
         }
 
         // Update statistics
@@ -699,8 +717,48 @@ impl EncryptedKeyStorageManager {
             ))
         })?;
         cache.clear();
+        if let Ok(mut tag) = self.cache_password_tag.write() {
+            *tag = None;
+        }
 
         Ok(())
+    }
+
+    /// Keyed fingerprint of a password (never stored outside this process)
+    fn password_tag(&self, password: &SecureString) -> Result<[u8; 32]> {
+        let password_str = password.as_str().map_err(|e| {
+            P2PError::Security(crate::error::SecurityError::DecryptionFailed(
+                format!("Invalid password encoding: {e}").into(),
+            ))
+        })?;
+        Ok(*blake3::keyed_hash(&self.cache_tag_key, password_str.as_bytes()).as_bytes())
+    }
+
+    /// Record that `password` unlocked the store and filled the cache
+    fn remember_cache_password(&self, password: &SecureString) -> Result<()> {
+        let tag = self.password_tag(password)?;
+        let mut slot = self.cache_password_tag.write().map_err(|_| {
+            P2PError::Storage(StorageError::LockPoisoned(
+                "write lock failed".to_string().into(),
+            ))
+        })?;
+        *slot = Some(tag);
+        Ok(())
+    }
+
+    /// Whether `password` is the one the cache was filled under
+    fn cache_password_matches(&self, password: &SecureString) -> Result<bool> {
+        use subtle::ConstantTimeEq;
+        let tag = self.password_tag(password)?;
+        let slot = self.cache_password_tag.read().map_err(|_| {
+            P2PError::Storage(StorageError::LockPoisoned(
+                "read lock failed".to_string().into(),
+            ))
+        })?;
+        Ok(match slot.as_ref() {
+            Some(expected) => bool::from(expected.ct_eq(&tag)),
+            None => false,
+        })
     }
 
     /// Derive key from password using Argon2id
